@@ -33,10 +33,13 @@ def obs_oracle(cfg, batches):
             fails.append(f"call {k}: batch parts have different lengths")
             continue
         for r in range(len(p)):
-            vals = list(p[r]) + list(v[r]) + [e[r][0]]
+            er = e[r][0] if isinstance(e[r], (list, tuple)) else e[r]
+            if not isinstance(e[r], (list, tuple)):
+                fails.append(f"call {k}, position {r}: the observed parameter of a batch row is a bare number, not a row of the (n, 1) table")
+            vals = list(p[r]) + list(v[r]) + [er]
             if any(x != x for x in vals):
                 fails.append(f"call {k}, position {r}: the batch row holds values that are not numbers ({vals}): not a row of the table"); continue
-            js = {round((x - 1.0 - 1000.0 * c) / 10.0, 6) for c, x in enumerate(p[r])} | {round((x - 2.0 - 1000.0 * c) / 10.0, 6) for c, x in enumerate(v[r])} | {round((e[r][0] - 3.0) / 10.0, 6)}
+            js = {round((x - 1.0 - 1000.0 * c) / 10.0, 6) for c, x in enumerate(p[r])} | {round((x - 2.0 - 1000.0 * c) / 10.0, 6) for c, x in enumerate(v[r])} | {round((er - 3.0) / 10.0, 6)}
             if len(js) != 1 or not (0 <= min(js) < cfg["n"]) or min(js) != int(min(js)):
                 fails.append(f"call {k}, position {r}: input/value/parameter come from rows {sorted(js)}")
     return fails
@@ -49,7 +52,8 @@ def obs_case(cid, cfg, batches, stores):
     tab = lambda off: clist([10 * j + off for j in range(n)], cz)
     # a value that is not a number (or not an entry of the table) is written as -1: no row of the table holds it
     toz = lambda x: int(x) if (x == x and abs(x) < 1e15) else -1
-    ob = clist(batches, lambda t: f"({clist([toz(r[0]) for r in t[0]], cz)}, {clist([toz(r[0]) for r in t[1]], cz)}, {clist([toz(r[0]) for r in t[2]], cz)})")
+    first = lambda r: r[0] if isinstance(r, (list, tuple)) else r          # (a table that was left 1-D gives bare numbers)
+    ob = clist(batches, lambda t: f"({clist([toz(first(r)) for r in t[0]], cz)}, {clist([toz(first(r)) for r in t[1]], cz)}, {clist([toz(first(r)) for r in t[2]], cz)})")
     return f"ObsCase {cnat(cid)} {cz(b)} {tab(1)} {tab(2)} {tab(3)} {clist(perms, lambda p: clist(p, cnat))} {ob}"
 
 
